@@ -87,6 +87,20 @@ class C03(Machine):
                           "x": rng.choice([0.0, 1e-7, 0.5, 2.0, 10.0]), "dist": rng.randint(0, 3)})
         return {"config": cfg, "initial": {"tree": spec}, "steps": steps}
 
+    def simplify(self, plan):
+        import copy
+        for sp in gen.shrink_specs(plan["initial"]["tree"]):
+            cand = copy.deepcopy(plan)
+            cand["initial"]["tree"] = sp
+            cand["config"]["labels"] = [l for l in gen.spec_leaves(sp) if l is not None]
+            yield cand
+        cfg = plan["config"]
+        for k, v in (("extra_taxa", 0), ("internal_taxa", False)):
+            if cfg.get(k) != v:
+                cand = copy.deepcopy(plan)
+                cand["config"][k] = v
+                yield cand
+
     # ------------------------------------------------------------------
     def run(self, plan, rec):
         try:
